@@ -12,6 +12,20 @@ public:
     Phreeqc* e = p->PhreeqcPtr;
     return e->current_selected_output && e->current_selected_output->Get_new_def();
   }
+  // headings that IPhreeqc::EndRow will push as empty cells (mirrors its condition; B05_ENDROW_CHECKS_USER_PUNCH is set by
+  // tools/tracelib.py from the shape of EndRow in the source: does it consult -user_punch of the block?)
+  static std::vector<std::string> pending_headings(IPhreeqc* p) {
+    std::vector<std::string> r;
+    Phreeqc* e = p->PhreeqcPtr;
+    if (e->current_selected_output && e->current_user_punch && e->n_user_punch_index >= 0) {
+#ifdef B05_ENDROW_CHECKS_USER_PUNCH
+      if (!e->current_selected_output->Get_user_punch()) return r;
+#endif
+      const std::vector<std::string>& h = e->current_user_punch->Get_headings();
+      for (size_t i = e->n_user_punch_index; i < h.size(); ++i) r.push_back(h[i]);
+    }
+    return r;
+  }
   static int pr_punch(IPhreeqc* p) { return p->PhreeqcPtr->pr.punch; }
   static int pr_dump(IPhreeqc* p) { return p->PhreeqcPtr->pr.dump; }
   static std::string dump_state(IPhreeqc* p) {
@@ -56,6 +70,6 @@ public:
     return IPhreeqc::punch_open(file_name, mode, n_user); }
   virtual void fpunchf_end_row(const char* fmt){
     std::string s = "EV endrow "+std::to_string(flags())+" "+std::to_string(TestIPhreeqc::cur_user(this));
-    for (auto& h : TestIPhreeqc::pending_headings(this)) s += " "+hx::hex(h);
+    for (auto& h : TestSelectedOutput::pending_headings(this)) s += " "+hx::hex(h);
     rec(s); IPhreeqc::fpunchf_end_row(fmt); }
 };
